@@ -18,12 +18,23 @@ def hx(b):
     return "-" if len(b) == 0 else bytes(b).hex()
 
 
+def inline_bytes(v):
+    """the 8-byte inline value derived from v: three payload bytes, upper bytes zero (a small word, no tag bits)"""
+    return (bytes(v)[:3] + b"\0" * 8)[:8]
+
+
+def inline_word_hex(v8):
+    """what get prints for an inline value (the slot word, little endian)"""
+    return "%x" % int.from_bytes(bytes(v8), "little")
+
+
 # ------------------------------------------------------------------ scenarios
 class Scenario:
     def __init__(self, name, setup, threads, finals, storage=b"s"):
         self.name, self.setup, self.threads, self.finals, self.storage = name, setup, threads, finals, storage
 
     events = False
+    inline = False        # store 8-byte inline values instead of out-of-line ones
     removed = ()          # keys removed again during preparation (shapes with nearly empty nodes)
 
     def initial(self):
@@ -37,7 +48,10 @@ class Scenario:
         for nm in getattr(self, "more_storages", ()):
             out.append("setup create " + hx(nm))
         for k, v in self.setup:
-            out.append("setup put %s %s %s 1 0" % (hx(self.storage), hx(k), hx(v)))
+            if self.inline:
+                out.append("setup put %s %s %s 8 1" % (hx(self.storage), hx(k), hx(inline_bytes(v))))
+            else:
+                out.append("setup put %s %s %s 1 0" % (hx(self.storage), hx(k), hx(v)))
         for k in self.removed:
             out.append("setup rem %s %s" % (hx(self.storage), hx(k)))
         for t, ops in enumerate(self.threads):
@@ -138,10 +152,11 @@ def catalogue():
     S = hx(st)
     out = []
 
-    def mk(name, keys, threads, removed=(), extra_finals=()):
+    def mk(name, keys, threads, removed=(), extra_finals=(), inline=False):
         setup = [(k, b"i" + k[-1:]) for k in keys]
         sc = Scenario("cat:" + name, setup, threads, sorted(set(keys) | set(extra_finals)), st)
         sc.removed = tuple(removed)
+        sc.inline = inline
         out.append(sc)
 
     full = [bytes([0x41 + 2 * i]) for i in range(15)]
@@ -165,6 +180,16 @@ def catalogue():
     mk("update-vs-unlink", two, [[P(two[0], b"upd")], [R(two[0])]], removed=two[1:8])
     mk("get-vs-unlink", two, [[G(two[0]), G(two[12])], [R(two[0]), P(two[0], b"again")]], removed=two[1:8])
     mk("rem-rem", [b"a", b"b"], [[R(b"a")], [R(b"a")]])
+    # the same races on inline (8-byte, stored in the slot word) values: remove does not clear such a slot
+    PI = lambda k, v: "put %s %s %s 8 1" % (S, hx(k), hx(inline_bytes(v)))
+    mk("rem-rem-inline", [b"a", b"b"], [[R(b"a")], [R(b"a")]], inline=True)
+    mk("rem-rem-get-inline", [b"a", b"b", b"c"], [[R(b"b"), G(b"b")], [R(b"b")], [G(b"b")]], inline=True)
+    mk("rem-put-inline", [b"a", b"b"], [[R(b"a"), G(b"a")], [PI(b"a", b"nw")]], inline=True)
+    mk("get-vs-rem-put-other-inline", [b"a", b"b"], [[G(b"a")], [R(b"a"), PI(b"c", b"other")]], extra_finals=[b"c"], inline=True)
+    # a miss (get of an absent key records the border's version) racing with the insert of that key
+    mk("getmiss-vs-insert", [b"a", b"c"], [[G(b"b")], [P(b"b", b"new")]], extra_finals=[b"b"])
+    mk("getmiss-vs-insert-full", full, [[G(b"B")], [P(b"B", b"new")]], extra_finals=[b"B"])
+    mk("getmiss-vs-insert-layer", sub, [[G(b"prefix88d")], [P(b"prefix88d", b"new")]], extra_finals=[b"prefix88d"])
     # a reader of k racing with remove(k) + insert of ANOTHER key that re-uses the freed slot
     mk("get-vs-rem-put-other", [b"a", b"b"], [[G(b"a")], [R(b"a"), P(b"c", b"other-key-value")]], extra_finals=[b"c"])
     mk("get-vs-rem-put-other2", [b"a", b"b", b"c"], [[G(b"b"), G(b"b")], [R(b"b"), P(b"bb", b"zz")]], extra_finals=[b"bb"])
@@ -202,6 +227,10 @@ def catalogue():
            [[cur], [P(b"prefix88A", b"new")]], extra_finals=[b"prefix88A"])
         mk("cursor-%s-vs-split" % nm, full, [[cur], [P(b"J", b"new")]], extra_finals=[b"J"])
         mk("cursor-%s-vs-unlink" % nm, two, [[cur], [R(two[0]), P(two[0], b"again")]], removed=two[1:8])
+    # a tree whose keys were all removed again (the emptied root stays, flagged deleted): scan / miss, then insert
+    mk("emptied-scan-vs-insert", [b"a", b"b"], [[ALL], [P(b"q", b"new")]], removed=[b"a", b"b"], extra_finals=[b"q"])
+    mk("emptied-getmiss-vs-insert", [b"a", b"b"], [[G(b"q")], [P(b"q", b"new")]], removed=[b"a", b"b"], extra_finals=[b"q"])
+    mk("emptied-scan-then-insert", [b"a"], [[ALL, P(b"q", b"new")]], removed=[b"a"], extra_finals=[b"q"])
     # scan standing between two borders while the left one is emptied and unlinked (F8)
     mk("scan-vs-unlink-reinsert", two, [["scan %s %s IN %s IN 0 0" % (S, hx(two[0]), hx(two[15]))],
                                         [R(two[0]), P(two[0], b"again")]], removed=two[1:8])
@@ -278,7 +307,14 @@ def gen_scenario(rng, shape, kinds=("put", "get", "rem", "uput"), nthreads=2, op
                 ops.append("%s %s %s" % (kind, hx(st), hx(k)))
         threads.append(ops)
     finals = sorted(set(keys) | set(pool))
-    return Scenario(shape, setup, threads, finals, st)
+    sc = Scenario(shape, setup, threads, finals, st)
+    if rng.random() < 0.2 and not scans:
+        sc.inline = True
+        sc.threads = [[re.sub(r"^(put|uput) (\S+) (\S+) (\S+) 1 0$",
+                              lambda m: "%s %s %s %s 8 1" % (m.group(1), m.group(2), m.group(3),
+                                                             hx(inline_bytes(unhex(m.group(4))))), o)
+                       for o in ops] for ops in sc.threads]
+    return sc
 
 
 # ------------------------------------------------------------------ running
@@ -423,6 +459,10 @@ def check_run(r, scen, want=("lin", "null", "scan", "deadlock", "coherent")):
         if "deadlock" in want:
             bad.append(("livelock", r.abort or "step budget exhausted"))
         return bad
+    if r.rc == 124:
+        bad.append(("hang", "the run did not finish within its time limit: an operation never returns (for instance it "
+                    "spins on a lock that was left held)"))
+        return bad
     if r.rc != 0 or not r.done:
         bad.append(("crash", "driver exit code %s" % r.rc))
         return bad
@@ -456,6 +496,8 @@ def check_run(r, scen, want=("lin", "null", "scan", "deadlock", "coherent")):
             arg = None
             if kind in ("put", "uput"):
                 arg = a[2]
+                if len(a) > 4 and a[4] == "1":
+                    arg = inline_word_hex(unhex(a[2]))       # inline: get reports the slot word
             if "NULLPTR" in res and "null" in want:
                 bad.append(("null", "%s returned OK with a null value pointer: %s" % (kind, res)))
                 continue
@@ -522,6 +564,15 @@ def check_run(r, scen, want=("lin", "null", "scan", "deadlock", "coherent")):
                     keys2 = [unhex(e.split(":")[0]) for e in m.group(3).split()]
                     scans_seen.setdefault((o2["tid"], " ".join(o2["args"])), []).append((o2, keys2, int(m.group(2))))
         for (tid, stale, nvn, args) in r.reval:
+            if args.startswith("get "):
+                # a get that missed recorded the border's version: if the key exists at quiescence, an insert
+                # completed after the miss was decided, so the recorded pair must be stale
+                t = args.split()
+                fin = r.final.get((t[1], t[2]))
+                if fin is not None and fin.startswith("OK") and not stale:
+                    bad.append(("seen_or_stale", "get(%s) reported WARN_NOT_EXIST, the key exists once all operations have "
+                                "completed, and the (version,node) pair recorded for the miss is unchanged" % t[2]))
+                continue
             lst = scans_seen.get((tid, args))
             if not lst:
                 continue
@@ -543,7 +594,9 @@ def check_run(r, scen, want=("lin", "null", "scan", "deadlock", "coherent")):
     if "lin" in want:
         for k, lst in perkey.items():
             iv = sinit.get(k) if k.startswith(b"\x00storage:") else init.get(k)
-            r.lin_jobs.append((k, iv.hex() if iv is not None else None, lst))
+            ivh = None if iv is None else (inline_word_hex(inline_bytes(iv)) if scen.inline and not k.startswith(b"\x00storage:")
+                                           else iv.hex())
+            r.lin_jobs.append((k, ivh, lst))
     if "coherent" in want:
         for stn, lb in r.lockbits.items():
             if lb != "clean":
@@ -687,7 +740,7 @@ def knum(k):
 def border_history(r, scen):
     """the observed history of a single-border run in border_main's input format, or None if not applicable"""
     keys = [k for k, _ in scen.setup]
-    if any(len(k) > 8 for k in keys) or len(keys) > 8:
+    if any(len(k) > 8 for k in keys) or len(keys) > 8 or scen.inline:
         return None
     items = ["I " + " ".join("%s %s" % (knum(k), vnum(v.hex())) for k, v in scen.setup)]
     for step, rest in r.hist:
@@ -877,13 +930,14 @@ def run_conc_property(res, tag, want, shapes, kinds, scans, budget_quick, budget
         for sc in catalogue():
             if not scans and any(o.startswith(("scan", "iscan")) for ops in sc.threads for o in ops):
                 continue
-            n, v, steps, dist, runs = explore_runs(binary, sc, "preempt1", wd, 1600, rng, want)
-            total_runs += n
-            total_steps += steps
-            distinct += dist
-            viol += v
-            shape_counts["catalogue"] = shape_counts.get("catalogue", 0) + n
-            collect_chain(sc, runs, 120 if res.tier == "quick" else 600)
+            for strat, bud in (("preempt1", 1600), ("race2", 200 if res.tier == "quick" else 3000)):
+                n, v, steps, dist, runs = explore_runs(binary, sc, strat, wd, bud, rng, want)
+                total_runs += n
+                total_steps += steps
+                distinct += dist
+                viol += v
+                shape_counts["catalogue"] = shape_counts.get("catalogue", 0) + n
+                collect_chain(sc, runs, (120 if res.tier == "quick" else 600) if strat == "preempt1" else 30)
     n_scen = 2 if res.tier == "quick" else 8
     special = {"collapse": gen_collapse, "collapse-scan": gen_collapse_scan}
     for shape in shapes:
@@ -997,6 +1051,41 @@ def explore_runs(binary, scen, strategy, workdir, budget, rng, want, jobs=16):
             for k in range(1, N + 1):
                 for t in range(nt):
                     texts.append("mode preempt first %d at %d:%d maxsteps 200000" % (first, k, t))
+    elif strategy == "race2":
+        # race-directed, two preemptions: thread a runs alone up to an access of an address the other thread also
+        # touches (one of them writing), thread b runs up to such an access of its own, a continues to its end, then b
+        old_ev = Scenario.events
+        Scenario.events = True
+        try:
+            solo = {}
+            for t in range(nt):
+                rb = run_once(binary, scen.text("mode preempt first %d maxsteps 200000" % t), workdir, 0)
+                acc = []
+                for ln in rb.out.split("\n"):
+                    if ln.startswith("E "):
+                        f = ln.split(" ")
+                        if len(f) >= 9 and int(f[2]) == t and int(f[7]) == -1:
+                            acc.append((int(f[8]), int(f[3]), f[5]))
+                solo[t] = acc
+        finally:
+            Scenario.events = old_ev
+        pairs = []
+        for a in range(nt):
+            for b in range(nt):
+                if a == b:
+                    continue
+                wa = {ad for (_, k, ad) in solo[a] if k in (1, 2, 7)}
+                wb = {ad for (_, k, ad) in solo[b] if k in (1, 2, 7)}
+                aa = {ad for (_, _, ad) in solo[a]}
+                ab = {ad for (_, _, ad) in solo[b]}
+                shared = (wa & ab) | (wb & aa)
+                ca = sorted({st for (st, _, ad) in solo[a] if ad in shared})
+                cb = sorted({st for (st, _, ad) in solo[b] if ad in shared})
+                for j in ca:
+                    for k in cb:
+                        pairs.append("mode preempt first %d at %d:%d at %d:%d maxsteps 200000" % (a, j, b, j + k, a))
+        rng.shuffle(pairs)
+        texts += pairs
     elif strategy == "preempt2":
         for _ in range(budget):
             a, b = sorted(rng.sample(range(1, N + 1), 2))
